@@ -445,7 +445,7 @@ pub fn normalise(s: &mut ModelSpec, keymode: u8, _odd: bool) {
 
 pub fn skin_spec(x: Excl) -> impl Strategy<Value = (SkinSpec, Vec<&'static str>)> {
     (
-        prop_oneof![2 => Just(None), 1 => Just(Some(0u32)), 2 => Just(Some(1u32)), 2 => Just(Some(2u32))],
+        prop_oneof![2 => Just(None), 1 => Just(Some(0u32)), 2 => Just(Some(1u32)), 2 => Just(Some(2u32)), 1 => Just(Some(3u32)), 2 => Just(Some(4u32)), 2 => Just(Some(5u32))],
         prop_oneof![2 => sized(u16x(), 4), 3 => vec(u16x(), 5..40).boxed()],
         sized(u16x(), 12),
         sized(any::<[u8; 4]>(), 8),
